@@ -5,6 +5,9 @@ CONSTANTS
   MaxMsgs = 3
   MaxSteps = 9
   FIXED = TRUE
+  ABORTS = FALSE
+  RESETONERR = TRUE
+  EOMCTX = TRUE
   GEN = FALSE
 INVARIANTS C01_Messages C01_AllButLastFull C01_NothingLeftBehind C01_SizeBound
 VIEW View
